@@ -525,6 +525,7 @@ def check(P, R):
             R.undecided('C01.f', mp, mp.node, 'make_params_dict', 'neither a dict comprehension nor a loop over zip(names, values)')
     R.ob('C01.f', mp, z[0] if z else mp.node, ok, text='{name: value for name, value in zip(names, values) if not anonymous}', detail='' if ok else
          'names and values are not zipped positionally (or anonymous wildcards are not dropped)')
+    check_params_filter(P, R, 'C01.f', 'the handler is called with exactly the named wildcards of the rule (a converted value may be 0 or the empty string)')
     # the prefix that marks anonymous wildcards cannot begin a wildcard *name* (names are identifiers): otherwise named wildcards are dropped as anonymous
     rcls_ = P.cls(f'{RR}:Route')
     apv = rcls_.attrs.get('anon_prefix')
@@ -781,3 +782,26 @@ def cond_is_token(stmt, positive):
         return False
     in_body = T._inside(stmt, t.body)
     return in_body if positive else not in_body
+
+
+def check_params_filter(P, R, rid, why):
+    """make_params_dict drops a pair for one reason only: the name is anonymous.  No condition on the value (0, 0.0 and '' are values)."""
+    mp = P.func(f'{RR}:Route.make_params_dict')
+    conds = []
+    for dc in [c for c in ast.walk(mp.node) if isinstance(c, ast.DictComp)]:
+        tgt = dc.generators[0].target
+        vname = tgt.elts[1].id if isinstance(tgt, ast.Tuple) and len(tgt.elts) == 2 and isinstance(tgt.elts[1], ast.Name) else None
+        for i in dc.generators[0].ifs:
+            conds += [(c_, vname) for c_ in bool_operands(i, ast.And)]
+    for l in [l for l in walk_shallow(mp.node) if isinstance(l, ast.For) and isinstance(l.target, ast.Tuple) and len(l.target.elts) == 2]:
+        vname = l.target.elts[1].id if isinstance(l.target.elts[1], ast.Name) else None
+        for t_ in [t_ for t_ in walk_shallow(l) if isinstance(t_, ast.If)]:
+            conds += [(c_, vname) for c_ in bool_operands(t_.test, ast.And)] + [(c_, vname) for c_ in bool_operands(t_.test, ast.Or) if len(bool_operands(t_.test, ast.Or)) > 1]
+    for (c_, vname) in conds:
+        on_value = vname is not None and any(isinstance(x, ast.Name) and x.id == vname for x in ast.walk(c_))
+        none_test = on_value and compare_parts(c_) and compare_parts(c_)[1] in (ast.Is, ast.IsNot) and is_const(compare_parts(c_)[2], None)
+        ok = not on_value
+        R.ob(rid, mp, c_, ok, text=f'filter condition `{short(c_)}` is about the name only', detail='' if ok else
+             (f'the pair is also dropped on `{short(c_)}`, a test of the value: a named wildcard that legitimately matched 0, 0.0 or the empty string disappears from the keyword '
+              f'arguments (and url() built from that assignment raises KeyError)' if not none_test else
+              f'`{short(c_)}`: values are never None here; the condition has no recogniser beyond that'), why=why, key_extra='params-filter-name-only')
